@@ -16,7 +16,8 @@
    with PrimFloat's own IEEE division of the exactly converted reference sum and count. *)
 From Coq Require Import String.
 From Coq Require Import List ZArith QArith Qabs Qround Bool Floats Uint63.
-From IB Require Import Util.J Combiners.Lawful Combiners.Basic Combiners.TopK Combiners.Distinct.
+From IB Require Import Util.J Combiners.Lawful Combiners.Basic Combiners.TopK Combiners.Distinct
+  Combiners.Shapes.
 Import ListNotations.
 Open Scope Z_scope.
 
@@ -253,7 +254,21 @@ Fixpoint judge_rows (den : Z) (vs : list Z) (ts : list (mtree Z)) (cfgs : list (
 
 (* ------------------------------------------------------------------ accumulator expressions
    [0] create | [1, e, v] add_input | [2, l, r] merge | [3, vs] build_from_group
-   | [4, vs] create followed by add_input of each value *)
+   | [4, vs] create followed by add_input of each value
+   | [5, g] build_from_group over generated values | [6, g] create + add_input of each generated
+   value | [7, g, psize, mode, nest] the generated values in chunks of psize, merged along a
+   left-nested / right-nested / balanced tree (Combiners/Shapes.v);
+   g = [start, n, a, b, m, off] = gen_values start n a b m off *)
+Definition gen_bound : Z := 2 ^ 40.
+Definition dec_gen (j : J) : option (list Z) :=
+  match j with
+  | JL [JI start; JI n; JI a; JI b; JI m; JI off] =>
+      if (n <? 0) || (200000 <? n) || (m <? 1) || (gen_bound <? m) || (start <? 0)
+         || (gen_bound <? start) || (gen_bound <? Z.abs a) || (gen_bound <? Z.abs b)
+         || (gen_bound <? Z.abs off)
+      then None else Some (gen_values start (Z.to_nat n) a b m off)
+  | _ => None
+  end.
 Fixpoint dec_aexpr (fuel : nat) (j : J) : option (aexpr Z) :=
   match fuel with
   | O => None
@@ -269,6 +284,14 @@ Fixpoint dec_aexpr (fuel : nat) (j : J) : option (aexpr Z) :=
       | JL [JI 4; vs] =>
           match jints vs with
           | Some l => Some (fold_left AAdd l ACreate) | None => None end
+      | JL [JI 5; g] => match dec_gen g with Some l => Some (ABuild l) | None => None end
+      | JL [JI 6; g] => match dec_gen g with Some l => Some (fold_expr l) | None => None end
+      | JL [JI 7; g; JI psize; JI mode; JI nest] =>
+          if (psize <? 1) || (mode <? 0) || (2 <? mode) || (nest <? 0) || (2 <? nest) then None
+          else match dec_gen g with
+               | Some l => Some (chunked (Z.to_nat mode) (Z.to_nat nest) (Z.to_nat psize) l)
+               | None => None
+               end
       | _ => None
       end
   end.
@@ -330,6 +353,96 @@ Definition agree_expr (cid : Z) (k : nat) (den : Z) (e : aexpr Z) (o : J) : bool
     | _ => false end
   else false.
 
+
+(* ------------------------------------------------------------------ big groups ("big")
+   in = [cid, k, den, ty, expression]; out = [first, second]: the outcomes of evaluating the
+   expression twice on the same combiner instance.  DistinctSet / TopK outputs arrive as a digest
+   [length, polynomial hash]; the sorting needed by the judge is a merge sort (the insertion sorts
+   above are quadratic), which also makes the reference independent of the TopK model's own
+   insertion sort. *)
+Fixpoint zmerge (a : list Z) : list Z -> list Z :=
+  match a with
+  | [] => fun b => b
+  | x :: a' =>
+      fix inner (b : list Z) : list Z :=
+        match b with
+        | [] => a
+        | y :: b' => if x <=? y then x :: zmerge a' b else y :: inner b'
+        end
+  end.
+Fixpoint msort_fuel (fuel : nat) (l : list Z) : list Z :=
+  match fuel with
+  | O => l
+  | S f =>
+      match l with
+      | [] | [_] => l
+      | _ => let h := Nat.div2 (length l) in
+             zmerge (msort_fuel f (firstn h l)) (msort_fuel f (skipn h l))
+      end
+  end.
+Definition msort (l : list Z) : list Z := msort_fuel 64 l.
+
+Definition hash_p : Z := 2 ^ 61 - 1.
+Definition zhash (l : list Z) : Z :=
+  fold_left (fun h x => (h * 1000003 + x mod hash_p) mod hash_p) l 0.
+Definition digest_is (o : J) (l : list Z) : bool :=
+  match o with
+  | JL [JI len; JI h] => (len =? Z.of_nat (length l)) && (h =? zhash l)
+  | _ => false
+  end.
+
+Definition agree_big (cid : Z) (k : nat) (den : Z) (e : aexpr Z) (o : J) : bool :=
+  if cid =? 6 then
+    digest_is o (msort (c_finish (distinct_set_combiner Z.eqb)
+                                 (aeval (distinct_set_combiner Z.eqb) e)))
+  else if cid =? 7 then
+    digest_is o (c_finish (topk_combiner k) (aeval (topk_combiner k) e))
+  else agree_expr cid k den e o.
+
+Definition prop_big (cid : Z) (k : nat) (den : Z) (vs : list Z) (o : J) : bool :=
+  if cid =? 5 then
+    match o with JI z => z =? Z.of_nat (length (dedup_sorted (msort vs))) | _ => false end
+  else if cid =? 6 then digest_is o (dedup_sorted (msort vs))
+  else if cid =? 7 then digest_is o (firstn k (rev (msort vs)))
+  else if cid =? 8 then
+    match o with
+    | JL [JF t; JF f] =>
+        let d := Z.of_nat (length (dedup_sorted (msort vs))) in
+        (PrimFloat.eqb t f || (PrimFloat.is_nan t && PrimFloat.is_nan f))
+        && (if d <? Z.of_nat (Nat.max k 4) then PrimFloat.eqb t (float_of_Z d) else true)
+    | _ => false end
+  else prop_out cid k den vs o.
+
+(* element types: 0 i64 / f64, 1 u64 (u32 for the mean), 2 i32: the values must be representable,
+   sums must not overflow, and the f64 sums of the mean must be exact *)
+(* conservative structural equality of outcomes (true => identical): lets the judge evaluate the
+   model once when both runs returned the same thing *)
+Fixpoint jeqb (a b : J) : bool :=
+  match a, b with
+  | JI x, JI y => x =? y
+  | JN, JN => true
+  | JS x, JS y => String.eqb x y
+  | JF x, JF y => PrimFloat.eqb x y && negb (PrimFloat.eqb x PrimFloat.zero)
+  | JL x, JL y =>
+      (fix go (x y : list J) : bool :=
+         match x, y with
+         | [], [] => true
+         | p :: x', q :: y' => jeqb p q && go x' y'
+         | _, _ => false
+         end) x y
+  | _, _ => false
+  end.
+
+Definition sum_abs (vs : list Z) : Z := fold_left (fun s v => s + Z.abs v) vs 0.
+Definition big_valid (cid den ty : Z) (vs : list Z) : bool :=
+  let s := sum_abs vs in
+  (s <? 2 ^ 62)
+  && (if cid =? 4 then (s <? 2 ^ 53) && ((ty =? 0) || (den =? 1)) else true)
+  && (if ty =? 0 then true
+      else if ty =? 1 then forallb (fun v => (0 <=? v) && (if cid =? 4 then v <? 2 ^ 32 else true)) vs
+      else if ty =? 2 then s <? 2 ^ 31
+      else false)
+  && (if cid =? 8 then ty =? 0 else true).
 
 (* ------------------------------------------------------------------ non-finite floats ("fsweep")
    FOR THE CORRESPONDENCE ONLY: the theorems are over Z / Q (finite values).  Here the sum model
@@ -561,5 +674,21 @@ Definition check_C06 (kind : string) (input output : J) : verdict :=
         | None => malformed
         end
     | _ => malformed
+    end
+  else if String.eqb kind "big" then
+    match input, output with
+    | JL [JI cid; JI k; JI den; JI ty; je], JL [o1; o2] =>
+        if negb (is_pow2 den) || (k <? 0) || (cid <? 0) || (8 <? cid) then malformed else
+        match dec_aexpr 1000 je with
+        | Some e =>
+            let vs := avalues e in
+            if negb (big_valid cid den ty vs) then malformed else
+            let k' := Z.to_nat k in
+            let same := jeqb o1 o2 in
+            ok_verdict (agree_big cid k' den e o1 && (same || agree_big cid k' den e o2))
+                       (prop_big cid k' den vs o1 && (same || prop_big cid k' den vs o2))
+        | None => malformed
+        end
+    | _, _ => malformed
     end
   else malformed.
